@@ -6,7 +6,7 @@ from ctypes import c_int, byref
 
 from akext import _lib
 from akext._util import (FILENAME, CastError, arg_int64, arg_string, cast_int64, cast_string, dict2parameters,
-                         parameters2dict, is_iterable, _badarg)
+                         parameters2dict, is_iterable, _badarg, InstanceRegistry)
 
 
 def _fn(line):
@@ -14,12 +14,14 @@ def _fn(line):
 
 
 CLASS_BY_ID = {}
+INSTANCES = InstanceRegistry(lambda h: _lib.L.akp_type_raw(h))
+_Registered = INSTANCES.metaclass()
 
 
 def _new(cls, h):
     self = object.__new__(cls)
     self._h = h
-    return self
+    return INSTANCES.add(self)
 
 
 def share(h):
@@ -27,6 +29,10 @@ def share(h):
     if not h:
         return None
     cls = CLASS_BY_ID.get(_lib.L.akp_type_classid(h), Type)
+    existing = INSTANCES.find(h, cls)
+    if existing is not None:
+        _lib.L.akp_type_free(h)
+        return existing
     return _new(cls, h)
 
 
@@ -87,7 +93,7 @@ def _tp(parameters, typestr):
     return _lib.cstrs(ks), _lib.cstrs(vs), len(ks), typestr2str(typestr)
 
 
-class Type(object):
+class Type(object, metaclass=_Registered):
     __slots__ = ("_h", "__weakref__")
 
     def __init__(self, *args, **kwargs):
